@@ -637,6 +637,12 @@ short DOMRangeImpl::compareBoundaryPoints(DOMRange::CompareHow how, const DOMRan
             DOMException::INVALID_STATE_ERR, 0, fMemoryManager);
     }
 
+    // the two ranges must be in the same document or document fragment
+    if (commonAncestorOf(pointA, pointB) == 0) {
+        throw DOMException(
+            DOMException::WRONG_DOCUMENT_ERR, 0, fMemoryManager);
+    }
+
     // case 1: same container
     if (pointA == pointB) {
         if (offsetA < offsetB) return -1; //A before B
@@ -743,7 +749,7 @@ void DOMRangeImpl::insertNode(DOMNode* newNode)
     }
 
     for (DOMNode* aNode = fStartContainer; aNode!=0; aNode = aNode->getParentNode()) {
-        if (castToNodeImpl(newNode)->isReadOnly()) {
+        if (castToNodeImpl(aNode)->isReadOnly()) {
         throw DOMException(
             DOMException::NO_MODIFICATION_ALLOWED_ERR, 0, fMemoryManager);
     }
@@ -1738,6 +1744,9 @@ void DOMRangeImpl::checkReadOnly(DOMNode* start, DOMNode* end,
                               XMLSize_t startOffset, XMLSize_t endOffset)
 {
     if ((start == 0) || (end == 0) ) return;
+
+    // a collapsed range has no content that could be read-only
+    if (start == end && startOffset == endOffset) return;
     DOMNode*sNode = 0;
 
     short type = start->getNodeType();
